@@ -131,6 +131,9 @@ pub struct ClientPlan {
     pub crash_after_op: Option<usize>,
     #[serde(default)]
     pub auth_token: Option<String>,
+    /// connect to the server's TCP endpoint (server/tcp.rs) instead of the Unix socket
+    #[serde(default)]
+    pub tcp: bool,
 }
 
 pub struct ClientShared {
@@ -179,6 +182,8 @@ pub struct Client {
     pub plan: ClientPlan,
     pub hist: History,
     pub path: PathBuf,
+    /// the server's simulated TCP endpoint, if it has one
+    pub tcp_addr: Option<std::net::SocketAddr>,
     pub answer_wait_us: u64,
 }
 
@@ -190,6 +195,7 @@ impl Client {
             plan,
             hist,
             path,
+            tcp_addr,
             answer_wait_us,
         } = self;
         if plan.start_delay_us > 0 {
@@ -198,7 +204,11 @@ impl Client {
         // like a real client, retry while the endpoint is not up yet
         let mut attempt = 0;
         let stream: Stream = loop {
-            match simcore::net::connect_unix(&path).await {
+            let conn = match (plan.tcp, tcp_addr) {
+                (true, Some(a)) => simcore::net::connect_tcp(a).await,
+                _ => simcore::net::connect_unix(&path).await,
+            };
+            match conn {
                 Ok(s) => break s,
                 Err(e) => {
                     attempt += 1;
